@@ -24,9 +24,20 @@ WT = "/tmp/mut_wt_%d" % a.worker
 VF = "/tmp/mut_verif_%d" % a.worker
 
 
-def sh(cmd, **kw):
-    p = subprocess.run(cmd, shell=True, stdout=subprocess.PIPE, stderr=subprocess.STDOUT, **kw)
-    return p.returncode, p.stdout.decode("utf-8", "replace")
+def sh(cmd, timeout=None, **kw):
+    # own process group, killed as a whole on timeout: a mutant can make a test program spin for ever
+    import signal
+    p = subprocess.Popen(cmd, shell=True, stdout=subprocess.PIPE, stderr=subprocess.STDOUT, start_new_session=True, **kw)
+    try:
+        out, _ = p.communicate(timeout=timeout)
+    except subprocess.TimeoutExpired:
+        try:
+            os.killpg(p.pid, signal.SIGKILL)
+        except OSError:
+            pass
+        p.communicate()
+        raise
+    return p.returncode, out.decode("utf-8", "replace")
 
 
 if not os.path.isdir(WT):
@@ -152,7 +163,10 @@ for f, name, ln, op, new in cands:
         if out.strip():
             r["status"] = "does-not-compile"
         else:
-            rc, out = sh("make -C %s -j8 check 2>&1 | grep -E '^# (PASS|FAIL|ERROR|XPASS)'" % WT, timeout=1200)
+            try:
+                rc, out = sh("make -C %s -j8 check 2>&1 | grep -E '^# (PASS|FAIL|ERROR|XPASS)'" % WT, timeout=600)
+            except subprocess.TimeoutExpired:
+                out = "# FAIL: 1 (test suite hangs)"
             tot = sum(int(x) for x in re.findall(r"# PASS:\s+(\d+)", out))
             bad = sum(int(x) for x in re.findall(r"# (?:FAIL|ERROR|XPASS):\s+(\d+)", out))
             if tot != 19 or bad:
